@@ -105,7 +105,7 @@ def bits_same(a, b):
 def correspond(ctx):
     """dynamic confirmation of the footprint table for the screen modules: no aotools screen operation changes the global generators"""
     rng = ctx["rng"]
-    n = 12 if ctx["tier"] == "quick" else 80
+    n = 12 if ctx["tier"] == "quick" else 240
     st = common.sync_generated()
     ents = [e for e in st.get("Gen_effects", {}).get("entries", []) if e["module"] in ("aotools.turbulence.phasescreen", "aotools.turbulence.infinitephasescreen")]
     div, meta = [], []
